@@ -1,4 +1,5 @@
 import RallyModel.Mechanic
+import RallyModel.MechanicStop
 import Drivers.Util
 open Lean DUtil
 
@@ -230,6 +231,47 @@ def handle (op : String) (a : Json) : Except String Json := do
     let owners := r.2.map (fun nd => match own.idxOf? nd.2 with | some i => toJson i | none => Json.null)
     return ok (Json.mkObj [("owners", arr owners), ("terms", arr (own.map (fun p => jN (w2.terms.count p)))),
       ("running", arr (own.map (fun p => jB (w2.running.contains p))))])
+  | "launcherStop" =>
+    -- ProcessLauncher.start, then the daemons of the nodes listed in `dead` (0-based positions) disappear on their own,
+    -- then ProcessLauncher.stop with a metrics store: per node how often meta data / system metrics were stored, which
+    -- nodes are returned as stopped, SIGTERMs per daemon, daemons still running
+    let n ← getNat a "n"
+    let dead ← (← getArr a "dead").mapM asNat
+    let dirs := (List.range n).map (· + 1)
+    let w0 : Launcher.World := ⟨0, fun _ => none, 100, [], []⟩
+    let r := Launcher.startAll w0 dirs
+    let own : List Nat := dirs.map (fun d => (r.1.pidFile d).getD 0)
+    let w1 := (dead.map (fun i => own.getD i 0)).foldl Launcher.die r.1
+    let x := Launcher.stopAllT (w1, Launcher.Tele.empty) r.2
+    return ok (Json.mkObj [("stored", arr (dirs.map (fun d => jN (x.2.stored.count d)))),
+      ("meta", arr (dirs.map (fun d => jN (x.2.metaInfo.count d)))),
+      ("stopped", arr (x.2.stopped.map (fun d => jN (d - 1)))),
+      ("detached", arr (dirs.map (fun d => arr [jN (x.2.detachedRunning.count d), jN (x.2.detachedStopped.count d)]))),
+      ("terms", arr (own.map (fun p => jN (x.1.terms.count p)))),
+      ("running", arr (own.map (fun p => jB (x.1.running.contains p))))])
+  | "dataPaths" =>
+    -- ElasticsearchInstaller._data_paths: the car variable (form absent / str / list / other) -> data paths or SystemSetupError
+    let path (j : Json) : Except String (List Nat) := do (← asList j).mapM asNat
+    let home ← path (← a.getObjVal? "home")
+    let form ← a.getObjValAs? String "form"
+    let v : Cleanup.CarVar ← match form with
+      | "absent" => pure Cleanup.CarVar.absent
+      | "str" => do pure (Cleanup.CarVar.str (← path (← a.getObjVal? "value")))
+      | "list" => do pure (Cleanup.CarVar.list (← (← getArr a "value").mapM path))
+      | "other" => pure Cleanup.CarVar.other
+      | f => throw s!"bad form {f}"
+    match Cleanup.dataPathsOf home v with
+    | some ds => return ok (arr (ds.map (fun p => arr (p.map jN)))) [form]
+    | none => return err "SystemSetupError" [form]
+  | "cleanup" =>
+    -- provisioner.cleanup on a directory tree (paths = lists of component ids): what is left
+    let preserve ← getBool a "preserve"
+    let path (j : Json) : Except String (List Nat) := do (← asList j).mapM asNat
+    let install ← path (← a.getObjVal? "install")
+    let data ← (← getArr a "data").mapM path
+    let fs ← (← getArr a "fs").mapM path
+    let left := Cleanup.cleanup preserve install data fs
+    return ok (arr (left.map (fun p => arr (p.map jN)))) [if preserve then "preserve" else "wipe"]
   | _ => throw s!"unknown op {op}"
 
 end Drivers.Mechanic
